@@ -29,6 +29,8 @@ type Case struct {
 	Obs     map[string]string `json:"obs,omitempty"`    // observables predicted by the engine
 	Records map[string]int64  `json:"records,omitempty"`
 	Params  map[string]int    `json:"params,omitempty"`
+	Dir     string            `json:"dir,omitempty"`   // pre-built database directory (crash image)
+	Phase   int               `json:"phase,omitempty"` // >= 1: run the recovery harness Fn2
 }
 
 // Result is printed as one "VFRESULT <json>" line per case.
@@ -204,6 +206,10 @@ func Dir() string {
 	if st.dir != "" {
 		return st.dir
 	}
+	if st.c != nil && st.c.Dir != "" {
+		st.dir = st.c.Dir
+		return st.dir
+	}
 	if d := os.Getenv("VF_DIR"); d != "" {
 		st.dir = d
 		return d
@@ -304,7 +310,7 @@ func runCase(c *Case, fns map[string]func()) (res Result) {
 				res.Panic = fmt.Sprintf("%v", r)
 			}
 		}
-		if d != "" && os.Getenv("VF_DIR") == "" && os.Getenv("VF_KEEP") == "" {
+		if d != "" && c.Dir == "" && os.Getenv("VF_DIR") == "" && os.Getenv("VF_KEEP") == "" {
 			_ = os.RemoveAll(d)
 		}
 		// compare observables predicted by the engine
@@ -322,7 +328,7 @@ func runCase(c *Case, fns map[string]func()) (res Result) {
 		}
 	}()
 	name := c.Fn
-	if p := os.Getenv("VF_PHASE"); p == "2" && c.Fn2 != "" {
+	if p := os.Getenv("VF_PHASE"); (p == "2" || c.Phase >= 1) && c.Fn2 != "" {
 		name = c.Fn2
 	}
 	fn := fns[name]
